@@ -25,7 +25,7 @@ META = {
     "outside": ["sizes beyond the bounds", "multiple-response dimensions (the proportions themselves are C03)"],
 }
 
-FILTER_SHAPES = ["absent", "new", "new_catdate", "old", "old_null_den", "old_missing", "new_empty_old_present"]
+FILTER_SHAPES = ["absent", "new", "new_catdate", "old", "old_null_den", "old_missing", "new_empty_old_present", "catdate_flag_without_complete_stats"]
 
 
 def filter_fields(eng, shape):
@@ -59,6 +59,10 @@ def filter_fields(eng, shape):
         return {"filtered": {"weighted_n": fil}, "unfiltered": {"weighted_n": None}}, (Q.lift(1) if eng.symbolic else 1.0)
     if shape == "old_missing":
         return {"filtered": {}, "unfiltered": {}}, (Q.lift(1) if eng.symbolic else 1.0)
+    if shape == "catdate_flag_without_complete_stats":
+        # the flag only matters together with complete-case statistics; without them the old-style ratio applies
+        fil, unf = eng.pyreal("f_fil", lo=0), eng.pyreal("f_unf", lo=0)
+        return {"filter_stats": {"is_cat_date": True}, "filtered": {"weighted_n": fil}, "unfiltered": {"weighted_n": unf}}, frac(fil, unf)
     if shape == "new_empty_old_present":
         fil, unf = eng.pyreal("f_fil", lo=0), eng.pyreal("f_unf", lo=0)
         return {"filter_stats": {"filtered_complete": {"weighted": {}}}, "filtered": {"weighted_n": fil}, "unfiltered": {"weighted_n": unf}}, frac(fil, unf)
